@@ -1,0 +1,15 @@
+//go:build verif
+
+// Verification hook for property C10 (build tag `verif` only): add-only accessor, no behaviour change.
+package core
+
+import (
+	"istio.io/istio/pilot/pkg/model"
+	"istio.io/istio/pilot/pkg/networking"
+	"istio.io/istio/pilot/pkg/security/authn"
+)
+
+// VerifFilterChainMatchOptions exposes the inbound filter-chain table (mTLS mode x listener protocol).
+func VerifFilterChainMatchOptions(mode model.MutualTLSMode, protocol networking.ListenerProtocol) []FilterChainMatchOptions {
+	return getFilterChainMatchOptions(authn.MTLSSettings{Mode: mode}, protocol)
+}
